@@ -198,4 +198,69 @@ theorem intRound_int (z : ℤ) : intRound ((z : ℝ)) = .ok z := by
   unfold intRound
   simp [roundHalfEven_int]
 
+/-! ### small facts used by the property file -/
+
+theorem catLoop_lt {β : Type} [OfNat β 0] [Add β] [LT β] [DecidableLT β] (t : β) :
+    ∀ (ps : List β) (cum : β) (i last : Nat), last < i → catLoop t ps cum i last < i + ps.length
+  | [], _, i, last, h => by unfold catLoop; simpa using h
+  | p :: ps, cum, i, last, h => by
+    unfold catLoop
+    simp only
+    split
+    · simp
+    · have := catLoop_lt t ps (cum + p) (i + 1) i (by omega)
+      simp only [List.length_cons]
+      omega
+
+
+theorem feq_false_of_lt {lo hi : ℝ} (h : lo < hi) : feq lo hi = false := by
+  unfold feq
+  simp [not_le.mpr h]
+
+
+theorem bdClamp_in (lo hi v : ℝ) (h : lo ≤ hi) : lo ≤ bdClamp lo hi v ∧ bdClamp lo hi v ≤ hi := by
+  unfold bdClamp pyMax pyMin
+  by_cases h1 : hi < v
+  · simp only [h1, if_true]
+    by_cases h2 : hi < lo
+    · exact absurd h (not_le.mpr h2)
+    · simp [h2, h]
+  · simp only [h1, if_false]
+    by_cases h2 : v < lo
+    · simp [h2, h]
+    · simp [h2, not_lt.mp h1, not_lt.mp h2]
+
+
+theorem truncate_intCast (lo hi n : ℤ) : truncate (lo : ℝ) (hi : ℝ) (n : ℝ) = ((truncate lo hi n : ℤ) : ℝ) := by
+  unfold truncate
+  simp only [Int.cast_lt]
+  split
+  · rfl
+  · split <;> rfl
+
+
+theorem feq_iff (a b : ℝ) : feq a b = true ↔ a = b := by
+  unfold feq
+  simp only [Bool.and_eq_true, decide_eq_true_eq]
+  exact ⟨fun h => le_antisymm h.1 h.2, fun h => ⟨h.le, h.ge⟩⟩
+
+
+theorem firstLe_strict {α : Type} [LinearOrder α] (u : α) : ∀ (ps : List α) (i j : Nat), firstLe u ps i = some j →
+    ∃ p, ps[j - i]? = some p ∧ u < p
+  | [], _, _, h => by simp [firstLe] at h
+  | p :: ps, i, j, h => by
+    unfold firstLe at h
+    by_cases hp : u < p
+    · simp only [hp, if_true, Option.some.injEq] at h
+      subst h
+      exact ⟨p, by simp, hp⟩
+    · simp only [hp, if_false] at h
+      obtain ⟨q, hq, hlt⟩ := firstLe_strict u ps (i + 1) j h
+      have hij := (firstLe_lt u ps (i + 1) j h).1
+      refine ⟨q, ?_, hlt⟩
+      have : j - i = (j - (i + 1)) + 1 := by omega
+      rw [this, List.getElem?_cons_succ]
+      exact hq
+
+
 end DPL.RangeL
